@@ -74,12 +74,12 @@ Qed.
 Definition dev_boot : devices := {| has_totp := false; has_u2f := false; has_wa := false; has_profile := true |}.
 Definition dev_totp : devices := {| has_totp := true; has_u2f := false; has_wa := false; has_profile := true |}.
 Definition kx : config := fixed (fun u => if N.eqb u 1 then dev_totp else dev_boot) (2 ^ F_U2F).
-Definition s_pending : st := fst (run kx init [Tick 3000; Login 1 true; Login 2 true; IssueOtp 2 600]).
+Definition s_pending : st := fst (run kx init [Tick 3000; Login 1 true []; Login 2 true []; IssueOtp 2 600]).
 Example refused_examples :
   refused kx s_pending (Bootstrap [1%nat] BBad) = true /\
   refused kx s_pending (Bootstrap [1%nat] (BCode 2 0)) = false /\
   refused kx s_pending (Totp [0%nat] TBad) = true /\
   refused kx s_pending (Totp [0%nat] (TCode 1 100)) = false /\
   (* the pair of the seeded situation: right value || wrong value, then the right value again on another session *)
-  snd (both kx (fst (both kx s_pending (Bootstrap [1%nat] BBad) (Bootstrap [1%nat] (BCode 2 0)))) (Login 2 true) (Bootstrap [3%nat] (BCode 2 0))) = (snd (step kx s_pending (Login 2 true)), None).
+  snd (both kx (fst (both kx s_pending (Bootstrap [1%nat] BBad) (Bootstrap [1%nat] (BCode 2 0)))) (Login 2 true []) (Bootstrap [3%nat] (BCode 2 0))) = (snd (step kx s_pending (Login 2 true [])), None).
 Proof. vm_compute. repeat split. Qed.
